@@ -34,6 +34,7 @@ func pickElems(r *rand.Rand, n int, user bool) []int64 {
 func genSchedule(r *rand.Rand, pl *plan.Plan, maxPre int, stepsHint int) {
 	pl.Sched.Seed = r.Uint64()
 	pl.Sched.Sticky = []int{0, 50, 80, 95}[r.IntN(4)]
+	pl.Sched.UnlockYield = []int{0, 0, 30, 70}[r.IntN(4)]
 	if maxPre > 0 && stepsHint > 0 {
 		n := r.IntN(maxPre + 1)
 		for i := 0; i < n; i++ {
